@@ -21,6 +21,7 @@
 #include <Eigen/Dense>
 #include <amgcl/preconditioner/runtime.hpp>
 #include <set>
+#include "c12.hpp"
 #include "harness_main.hpp"
 
 const char *CHECK_ID = "C12";
@@ -76,21 +77,15 @@ typedef amgcl::mpi::subdomain_deflation<
 typedef amgcl::mpi::make_solver<
     amgcl::mpi::block_preconditioner< amgcl::runtime::preconditioner<DBackend> >,
     amgcl::runtime::mpi::solver::wrapper<DBackend> > BPSolver;
-enum { K_MPI_AMG = 0, K_SDD = 1, K_BLOCK = 2, K_DIRECT = 3 };
-static const char *kind_names[] = { "mpi::make_solver", "mpi::subdomain_deflation", "mpi::block_preconditioner", "mpi::direct::skyline_lu" };
+enum { K_MPI_AMG = 0, K_SDD = 1, K_BLOCK = 2, K_DIRECT = 3, K_BLOCKVAL = 4 };
+static const char *kind_names[] = { "mpi::make_solver", "mpi::subdomain_deflation", "mpi::block_preconditioner", "mpi::direct::skyline_lu", "mpi::make_solver<block values>" };
 static const char *local_coarsening_names[] = { "ruge_stuben", "aggregation", "smoothed_aggregation", "smoothed_aggr_emin" };
 
 static const char *coarsening_names[] = { "aggregation", "smoothed_aggregation" };
 static const char *relax_names[] = { "gauss_seidel", "ilu0", "iluk", "ilup", "ilut", "damped_jacobi", "spai0", "spai1", "chebyshev" };
 static const char *solver_names[] = { "cg", "bicgstab", "bicgstabl", "gmres", "lgmres", "fgmres", "idrs", "richardson" };
 
-static std::vector<long> draw_partition(sim::rng &r, long n, int R, bool allow_empty) {
-    std::vector<long> cuts; for (int i = 0; i < R - 1; ++i) cuts.push_back((long)r.below((uint64_t)n + 1));
-    std::sort(cuts.begin(), cuts.end());
-    std::vector<long> p(1, 0); for (size_t i = 0; i < cuts.size(); ++i) p.push_back(cuts[i]); p.push_back(n);
-    if (!allow_empty) { for (int k = 1; k < R; ++k) p[k] = std::max(p[k], p[k-1] + 1); for (int k = R - 1; k >= 1; --k) p[k] = std::min(p[k], p[k+1] - 1); }
-    return p;
-}
+using c12::draw_partition;
 
 Plan generate(uint64_t seed, uint64_t run, bool thorough) {
     sim::rng r(seed, "world", run);
@@ -110,7 +105,7 @@ Plan generate(uint64_t seed, uint64_t run, bool thorough) {
     p.set("fseed", (long)(r.next() >> 16), 0);
     p.set("nt", r.chance(0.7) ? 1 : 2, 1);
     { static const long nsc[] = { 1, 1, 2, 2, 2, 2, 3 }; p.set("nullspace", r.chance(0.35) ? nsc[r.below(7)] : 0, 0); }      // near-null-space vectors handed to the distributed coarsening
-    { double u = r.unit(); p.set("kind", u < 0.65 ? K_MPI_AMG : u < 0.79 ? K_SDD : u < 0.92 ? K_BLOCK : K_DIRECT, 0); }
+    { double u = r.unit(); p.set("kind", u < 0.58 ? K_MPI_AMG : u < 0.70 ? K_SDD : u < 0.81 ? K_BLOCK : u < 0.88 ? K_DIRECT : K_BLOCKVAL, 0); }
     if (p.get("kind") == K_DIRECT) p.set("n", r.range(8, 160), 8);
     p.set("local_relax_only", r.chance(0.4) ? 1 : 0, 0); p.set("local_coarsening", r.range(0, 2), 0); p.set("ndv", r.range(1, 2), 1);      // (no energy-minimising coarsening inside subdomains: its degenerate tiny levels are recorded under C02)
     p.set("aggr_block", 0, 0);      // pointwise (block_size = 2) aggregation of a scalar problem is not a meaningful configuration (singular coarse levels): only from an explicit plan
@@ -121,6 +116,7 @@ Plan generate(uint64_t seed, uint64_t run, bool thorough) {
 
 Result execute(const Plan &p) {
     Result res;
+    if (p.get("kind", K_MPI_AMG) == K_BLOCKVAL) { c12::blockval_world(p, res); return res; }
     int R = (int)p.get("R");
     gen::Csr A = gen::make_matrix((int)p.get("family"), p.get("n"), (uint64_t)p.get("mseed"), (int)p.get("contrast"), 1);
     const long n = A.n;
